@@ -21,6 +21,7 @@ type banBase struct {
 	accepted bool
 	sig      string
 	kinds    map[string][][2]string // kind -> list of (file, line)
+	json     []byte
 }
 
 func collectKinds(nodes []*proto.Node, files map[string][]byte, dir string, out map[string][][2]string) {
@@ -109,7 +110,7 @@ func C19(c *fw.Ctx) {
 	// pass 1: baselines
 	c.RunJobs(pool, func(emit func(*proto.Job)) {
 		for i, p := range projects {
-			j := &proto.Job{ID: fmt.Sprintf("base/%d", i), Root: p.Root, Files: p.Files, WantPhases: true, WantFiles: true, Ops: []string{"json"}, HashOnly: true}
+			j := &proto.Job{ID: fmt.Sprintf("base/%d", i), Root: p.Root, Files: p.Files, WantPhases: true, WantFiles: true, Ops: []string{"json"}}
 			emit(j)
 		}
 	}, func(j *proto.Job, res *proto.Result) {
@@ -131,6 +132,9 @@ func C19(c *fw.Ctx) {
 				}
 			}
 		}
+		if js := findOut(res, "json"); js != nil {
+			b.json = js.Bytes
+		}
 		bases[i] = b
 	})
 	var subsets [][]string
@@ -148,7 +152,7 @@ func C19(c *fw.Ctx) {
 			}
 			for si, s := range subsets {
 				for _, via := range []bool{false, true} {
-					j := &proto.Job{ID: fmt.Sprintf("ban/%d/%d/%v", i, si, via), Root: b.proj.Root, Files: b.proj.Files, Banned: s, ViaCore: via, Ops: []string{"json"}, HashOnly: true}
+					j := &proto.Job{ID: fmt.Sprintf("ban/%d/%d/%v", i, si, via), Root: b.proj.Root, Files: b.proj.Files, Banned: s, ViaCore: via, Ops: []string{"json"}}
 					emit(j)
 				}
 			}
@@ -183,6 +187,10 @@ func C19(c *fw.Ctx) {
 		if len(present) == 0 {
 			c.Inc("cases", "banned-kind-absent", 1)
 			if got := resultSig(res); got != b.sig {
+				if js := findOut(res, "json"); js != nil && b.json != nil && js.Bytes != nil && exampleOnlyDiff(b.json, js.Bytes, j.Files) {
+					c.Violate("ban:"+sigRegexExample, b.name+": only regex-type examples differ from the build without the option", rp)
+					return
+				}
 				c.Violate("ban:absent-kind-changes-result", fmt.Sprintf("%s contains none of %v but the result changed: %s VS %s", b.name, s, trunc(b.sig, 200), trunc(got, 200)), rp)
 			}
 			return
